@@ -84,9 +84,9 @@ func r64(rt *rapid.T, lo, hi int64, name string) int64 {
 // the API the window is sent through).
 func genWin(rt *rapid.T, gran int64) Win {
 	a := anchors[rapid.IntRange(0, len(anchors)-1).Draw(rt, "anchor")]
-	kinds := []string{"day", "midnight", "end-after-midnight", "start-after-midnight", "multiday", "subsecond", "midnight-exact"}
+	kinds := []string{"day", "midnight", "end-after-midnight", "start-after-midnight", "multiday", "three-days", "subsecond", "midnight-exact"}
 	if gran >= nsSec {
-		kinds = kinds[:5]
+		kinds = kinds[:6]
 	}
 	k := kinds[rapid.IntRange(0, len(kinds)-1).Draw(rt, "wkind")]
 	var from, to int64
@@ -106,6 +106,11 @@ func genWin(rt *rapid.T, gran int64) Win {
 	case "multiday":
 		from = a - r64(rt, 0, 2, "daysBefore")*nsDay + r64(rt, 0, 86399, "off")*nsSec
 		to = a + nsDay + r64(rt, 0, 2, "daysAfter")*nsDay + r64(rt, 0, 86399, "off2")*nsSec
+	case "three-days":
+		// touches the day before the anchor, the anchor day and the day after: for the anchors
+		// this is 30 Jan-1 Feb, 28 Feb-1 Mar (leap year), 30 Dec-1 Jan, ...
+		from = a - nsDay + r64(rt, 0, 86399, "off")*nsSec
+		to = a + nsDay + r64(rt, 1, 86399, "off2")*nsSec
 	case "subsecond":
 		from = a + r64(rt, 0, 2*86400, "off")*nsSec + r64(rt, 0, 999, "fracMs")*nsMs
 		to = from + r64(rt, 1, 900, "lenMs")*nsMs
@@ -120,6 +125,17 @@ func genWin(rt *rapid.T, gran int64) Win {
 		to = from + gran
 	}
 	return Win{From: from, To: to, Kind: k}
+}
+
+// middleDay returns an instant around noon of a UTC day strictly between the window's first
+// and last day (ok=false: the window touches fewer than three days). Index rows of data
+// there are dated on neither boundary day: the date bound has to be a RANGE.
+func (w Win) middleDay() (int64, bool) {
+	d0, d1 := dayOf(w.From), dayOf(w.To-1)
+	if d1-d0 < 2 {
+		return 0, false
+	}
+	return int64(d0+1)*nsDay + 12*3600*nsSec, true
 }
 
 func dayOf(ns int64) chsim.Date {
@@ -137,6 +153,9 @@ func (w Win) tags() []string {
 	}
 	if dayOf(w.From) != dayOf(w.To-1) {
 		t = append(t, "win:crosses-midnight")
+	}
+	if dayOf(w.To-1)-dayOf(w.From) >= 2 {
+		t = append(t, "win:three-or-more-utc-days")
 	}
 	if w.To-w.From < nsSec {
 		t = append(t, "win:sub-second")
